@@ -54,6 +54,7 @@ type Tr struct {
 	revealed     map[string]bool
 	curMref      string
 	reachCache   map[int]map[int]bool
+	assumeMode   bool // evaluating a clause that is being assumed (loop invariant at the cut, callee postcondition)
 	visitCount   int
 	subTerms     map[string]string
 	frameTops    []string
@@ -923,7 +924,9 @@ func (tr *Tr) cutLoopEntry(fr *Frame, li *loopInfo, st *State, entryPhis map[*ss
 	for _, inv := range lc.Invariants {
 		env := tr.frameEnv(fr, hst, li.header, nil, li)
 		tr.specMode++
+		tr.assumeMode = true
 		f := tr.evalBool(env, inv.Expr)
+		tr.assumeMode = false
 		tr.specMode--
 		tr.assume(hst, f)
 	}
@@ -1188,6 +1191,9 @@ func (tr *Tr) mergeOpaqueAtoms(sts []*State, out *State, guards []string) {
 			n := len(insts)
 			for k := 0; k < n; k++ {
 				inst := insts[k]
+				if strings.Contains(inst.atom, " _") {
+					continue // registered only for the quantified stability relation
+				}
 				changed, ok, isExact := false, true, true
 				var conds []string
 				nargs := make([]string, len(inst.args))
